@@ -774,10 +774,21 @@ def make_history(rng, quick, nops=None):
             for _try in range(10):
                 nv, np_ = list(vv), list(pv)
                 kind = "value"
-                if targets and rng.random() < 0.45:
+                q = rng.random()
+                if targets and q < 0.3:
                     i, bd, other = rng.choice(targets)
                     nv[i] = bd + (pv[other[1]] if other else 0.0)
                     kind = "boundary"
+                elif targets and q < 0.6:
+                    # move ACROSS a branch boundary: to the other side of the bound, through the Var or through the Param
+                    i, bd, other = rng.choice(targets)
+                    cur = vv[i] - (pv[other[1]] if other else 0.0)
+                    step = rng.choice([0.5, 1.0, 2.0]) * (-1.0 if cur >= bd else 1.0)
+                    if other and rng.random() < 0.5:
+                        np_[other[1]] = vv[i] - (bd + step)
+                    else:
+                        nv[i] = bd + step + (pv[other[1]] if other else 0.0)
+                    kind = "cross"
                 elif rng.random() < 0.75:
                     nv[rng.randrange(NV)] = rand_value(rng, dyadic=rng.random() < 0.6)
                 else:
@@ -790,6 +801,10 @@ def make_history(rng, quick, nops=None):
                         if np_[i] != pv[i]:
                             hist.append(("setp", i, np_[i]))
                     vv, pv = nv, np_
+                    # Jacobian evaluated FIRST (no x, no residual evaluation in between) at the values just written through
+                    # Var.value / Param.value: the Jacobian is a function of the current values only
+                    if not dirty and rng.random() < 0.6:
+                        hist.append(("jcheck",))
                     break
         elif r < 0.74:
             hist.append(("struct",))
@@ -1116,16 +1131,28 @@ class Run:
         self.mops.append(("check", "bad"))
         self.obs.append({"bad": True})
 
-    def op_check(self, i):
+    def op_jcheck(self, i):
+        """like `check`, but the Jacobian is evaluated BEFORE the residuals (evaluate_jacobian() without x right after values
+        were written through Var.value / Param.value, possibly since the last residual evaluation)"""
+        if self.dirty:
+            return
+        self.count("jacobian_before_residuals")
+        return self.op_check(i, jac_first=True)
+
+    def op_check(self, i, jac_first=False):
         import numpy as np
 
         m = self.m
         ncon = len(self.live)
         o = {"bad": False, "op_index": i}
         try:
-            r = [float(t) for t in m.evaluate_residuals()]
             nnz = m._evaluator.nnz
-            vals, cols, rows = m._evaluator.evaluate_csr_jacobian(nnz, nnz, ncon + 1)
+            if jac_first:
+                vals, cols, rows = m._evaluator.evaluate_csr_jacobian(nnz, nnz, ncon + 1)
+                vals, cols, rows = [float(t) for t in vals], [int(t) for t in cols], [int(t) for t in rows]
+            r = [float(t) for t in m.evaluate_residuals()]
+            if not jac_first:
+                vals, cols, rows = m._evaluator.evaluate_csr_jacobian(nnz, nnz, ncon + 1)
             vals, cols, rows = [float(t) for t in vals], [int(t) for t in cols], [int(t) for t in rows]
             xs = [float(t) for t in m.get_x()]
         except Exception as e:
